@@ -59,134 +59,136 @@ size_t nondet_size();
 long nondet_long();
 
 // ------------------------------------------------------------------ std::vector<unsigned char>
-struct verif_bytes_arr { unsigned char a[VERIF_ITEM_CAP]; };
-class verif_bytes {
-public:
-    verif_bytes_arr s; size_t n;
-    typedef unsigned char* iterator; typedef const unsigned char* const_iterator;
-    typedef unsigned char value_type;
-    verif_bytes() : n(0) {}
-    verif_bytes(const verif_bytes& o) : s(o.s), n(o.n) {}
-    verif_bytes& operator=(const verif_bytes& o) { s = o.s; n = o.n; return *this; }
-    explicit verif_bytes(size_t k) : n(0) { VERIF_LIMIT(k <= VERIF_ITEM_CAP, "byte vector storage capacity"); for (size_t i = 0; i < VERIF_ITEM_CAP; ++i) if (i < k) s.a[i] = 0; n = k; }
-    verif_bytes(size_t k, const unsigned char& v) : n(0) { VERIF_LIMIT(k <= VERIF_ITEM_CAP, "byte vector storage capacity"); for (size_t i = 0; i < VERIF_ITEM_CAP; ++i) if (i < k) s.a[i] = v; n = k; }
-    verif_bytes(const unsigned char* b, const unsigned char* e) : n(0) { size_t k = e - b; VERIF_LIMIT(k <= VERIF_ITEM_CAP, "byte vector storage capacity"); for (size_t i = 0; i < VERIF_ITEM_CAP; ++i) if (i < k) s.a[i] = b[i]; n = k; }
-    size_t size() const { return n; }
-    bool empty() const { return n == 0; }
-    unsigned char* data() { return s.a; }
-    const unsigned char* data() const { return s.a; }
-    unsigned char* begin() { return s.a; }
-    const unsigned char* begin() const { return s.a; }
-    unsigned char* end() { return s.a + n; }
-    const unsigned char* end() const { return s.a + n; }
-    unsigned char& operator[](size_t i) { __CPROVER_assert(i < n, "std::vector precondition: operator[] index in range"); return s.a[i]; }
-    const unsigned char& operator[](size_t i) const { __CPROVER_assert(i < n, "std::vector precondition: operator[] index in range"); return s.a[i]; }
-    unsigned char& at(size_t i) { if (i >= n) VERIF_THROW(VT_OUT_OF_RANGE); return s.a[i]; }
-    const unsigned char& at(size_t i) const { if (i >= n) VERIF_THROW(VT_OUT_OF_RANGE); return s.a[i]; }
-    unsigned char& back() { __CPROVER_assert(n > 0, "std::vector precondition: back() on non-empty vector"); return s.a[n - 1]; }
-    const unsigned char& back() const { __CPROVER_assert(n > 0, "std::vector precondition: back() on non-empty vector"); return s.a[n - 1]; }
-    unsigned char& front() { __CPROVER_assert(n > 0, "std::vector precondition: front() on non-empty vector"); return s.a[0]; }
-    void push_back(const unsigned char& v) { unsigned char t = v; VERIF_LIMIT(n < VERIF_ITEM_CAP, "byte vector storage capacity"); s.a[n] = t; n = n + 1; }
-    void pop_back() { __CPROVER_assert(n > 0, "std::vector precondition: pop_back() on non-empty vector"); n = n - 1; }
-    void clear() { n = 0; }
-    void resize(size_t k) { VERIF_LIMIT(k <= VERIF_ITEM_CAP, "byte vector storage capacity"); for (size_t i = 0; i < VERIF_ITEM_CAP; ++i) if (i >= n && i < k) s.a[i] = 0; n = k; }
-    void assign(const unsigned char* b, const unsigned char* e) { size_t k = e - b; VERIF_LIMIT(k <= VERIF_ITEM_CAP, "byte vector storage capacity"); for (size_t i = 0; i < VERIF_ITEM_CAP; ++i) if (i < k) s.a[i] = b[i]; n = k; }
-    // insert(end(), b, e) and general position insert
-    void insert(unsigned char* p, const unsigned char* b, const unsigned char* e) {
-        size_t pos = p - s.a; size_t k = e - b;
-        __CPROVER_assert(pos <= n, "std::vector precondition: insert position valid");
-        VERIF_LIMIT(pos == n, "range insert modelled at end() only");
-        VERIF_LIMIT(n + k <= VERIF_ITEM_CAP && k <= VERIF_ITEM_CAP, "byte vector storage capacity");
-        for (size_t i = 0; i < VERIF_ITEM_CAP; ++i) if (i < k && n + i < VERIF_ITEM_CAP) s.a[n + i] = b[i];
-        n = n + k;
-    }
-    unsigned char* insert(unsigned char* p, const unsigned char& v) {
-        size_t pos = p - s.a; unsigned char t = v;
-        __CPROVER_assert(pos <= n, "std::vector precondition: insert position valid");
-        VERIF_LIMIT(pos == n, "single insert modelled at end() only");
-        VERIF_LIMIT(n < VERIF_ITEM_CAP, "byte vector storage capacity");
-        s.a[n] = t; n = n + 1; return p;
-    }
-    unsigned char* erase(unsigned char* b, unsigned char* e) {
-        size_t pb = b - s.a; size_t pe = e - s.a;
-        __CPROVER_assert(pb <= pe && pe <= n, "std::vector precondition: erase range valid");
-        size_t k = pe - pb;
-        for (size_t i = 0; i < VERIF_ITEM_CAP; ++i) if (i >= pb && i + k < n) s.a[i] = s.a[i + k];
-        n = n - k; return b;
-    }
-    unsigned char* erase(unsigned char* p) {
-        size_t pos = p - s.a;
-        __CPROVER_assert(pos < n, "std::vector precondition: erase position valid");
-        for (size_t i = 0; i + 1 < VERIF_ITEM_CAP; ++i) if (i >= pos && i + 1 < n) s.a[i] = s.a[i + 1];
-        n = n - 1; return p;
-    }
-    bool operator==(const verif_bytes& o) const { if (n != o.n) return false; for (size_t i = 0; i < VERIF_ITEM_CAP; ++i) if (i < n && s.a[i] != o.s.a[i]) return false; return true; }
-    bool operator!=(const verif_bytes& o) const { return !(*this == o); }
-};
+#define VB_NAME verif_bytes
+#define VB_ARR verif_bytes_arr
+#define VB_CAP VERIF_ITEM_CAP
+#include "verif_bytes_body.h"
+#undef VB_NAME
+#undef VB_ARR
+#undef VB_CAP
+#ifndef VERIF_SCRIPT_CAP
+#define VERIF_SCRIPT_CAP 40
+#endif
+#define VB_NAME verif_scriptbytes
+#define VB_ARR verif_scriptbytes_arr
+#define VB_CAP VERIF_SCRIPT_CAP
+#include "verif_bytes_body.h"
+#undef VB_NAME
+#undef VB_ARR
+#undef VB_CAP
 
 // ------------------------------------------------------------------ std::vector<std::vector<unsigned char>>
 // Ghost-prefix window: logical size base+n; only the top n (<= VERIF_STACK_W) items have storage.
+// NOTE (CBMC 6.11 defect, reproduced in tools/cbmc_bug_symbolic_struct_index.c): dereferencing a byte pointer that was
+// derived from `array_of_structs + symbolic_index` reads a wrong value for offset 0 of the element.  Window elements
+// are therefore ALWAYS selected through sel(k) (an if-chain over literal indices) and iterators are index objects,
+// never raw pointers.
+struct verif_stack_iter {
+    size_t idx;   // index into the window (0..n)
+    verif_stack_iter operator-(long k) const { verif_stack_iter r; r.idx = idx - (size_t)k; return r; }
+    verif_stack_iter operator+(long k) const { verif_stack_iter r; r.idx = idx + (size_t)k; return r; }
+    long operator-(const verif_stack_iter& o) const { return (long)(idx - o.idx); }
+    bool operator==(const verif_stack_iter& o) const { return idx == o.idx; }
+    bool operator!=(const verif_stack_iter& o) const { return idx != o.idx; }
+};
 class verif_stack {
 public:
     size_t base; verif_bytes w[VERIF_STACK_W]; size_t n;
-    typedef verif_bytes* iterator; typedef const verif_bytes* const_iterator;
+    typedef verif_stack_iter iterator; typedef verif_stack_iter const_iterator;
     verif_stack() : base(0), n(0) {}
     verif_stack(const verif_stack& o) : base(o.base), n(o.n) { for (size_t i = 0; i < VERIF_STACK_W; ++i) w[i] = *(o.w + i); }
     verif_stack& operator=(const verif_stack& o) { base = o.base; n = o.n; for (size_t i = 0; i < VERIF_STACK_W; ++i) w[i] = *(o.w + i); return *this; }
+    verif_bytes& sel(size_t k) {
+#if VERIF_STACK_W > 1
+        if (k == 1) return w[1];
+#endif
+#if VERIF_STACK_W > 2
+        if (k == 2) return w[2];
+#endif
+#if VERIF_STACK_W > 3
+        if (k == 3) return w[3];
+#endif
+#if VERIF_STACK_W > 4
+        if (k == 4) return w[4];
+#endif
+#if VERIF_STACK_W > 5
+        if (k == 5) return w[5];
+#endif
+#if VERIF_STACK_W > 6
+        if (k == 6) return w[6];
+#endif
+#if VERIF_STACK_W > 7
+        if (k == 7) return w[7];
+#endif
+#if VERIF_STACK_W > 8
+        if (k == 8) return w[8];
+#endif
+#if VERIF_STACK_W > 9
+        if (k == 9) return w[9];
+#endif
+#if VERIF_STACK_W > 10
+        if (k == 10) return w[10];
+#endif
+#if VERIF_STACK_W > 11
+        if (k == 11) return w[11];
+#endif
+#if VERIF_STACK_W > 12
+        for (size_t j = 12; j < VERIF_STACK_W; ++j) if (k == j) return w[j];
+#endif
+        return w[0];
+    }
     size_t size() const { return base + n; }
     bool empty() const { return base + n == 0; }
     verif_bytes& at(size_t i) {
         if (i >= base + n) VERIF_THROW(VT_OUT_OF_RANGE);
         VERIF_LIMIT(i >= base, "stack access below the modelled window");
-        return *(w + (i - base));
+        return sel(i - base);
     }
     const verif_bytes& at(size_t i) const { return const_cast<verif_stack*>(this)->at(i); }
     verif_bytes& operator[](size_t i) {
         __CPROVER_assert(i < base + n, "std::vector precondition: operator[] index in range");
         VERIF_LIMIT(i >= base, "stack access below the modelled window");
-        return *(w + (i - base));
+        return sel(i - base);
     }
     const verif_bytes& operator[](size_t i) const { return const_cast<verif_stack*>(this)->operator[](i); }
     verif_bytes& back() {
         __CPROVER_assert(base + n > 0, "std::vector precondition: back() on non-empty vector");
         VERIF_LIMIT(n > 0, "stack access below the modelled window");
-        return *(w + (n - 1));
+        return sel(n - 1);
     }
     const verif_bytes& back() const { return const_cast<verif_stack*>(this)->back(); }
-    void push_back(const verif_bytes& v) { verif_bytes t = v; VERIF_LIMIT(n < VERIF_STACK_W, "stack window capacity"); w[n] = t; n = n + 1; }
+    void push_back(const verif_bytes& v) { verif_bytes t = v; VERIF_LIMIT(n < VERIF_STACK_W, "stack window capacity"); sel(n) = t; n = n + 1; }
     void pop_back() {
         __CPROVER_assert(base + n > 0, "std::vector precondition: pop_back() on non-empty vector");
         VERIF_LIMIT(n > 0, "stack access below the modelled window");
         n = n - 1;
     }
     void clear() { base = 0; n = 0; }
-    // iterators address the window only; end()-k with k > n is outside the window
-    verif_bytes* begin() { VERIF_LIMIT(base == 0, "begin() of a stack with hidden items"); return w; }
-    verif_bytes* end() { return w + n; }
-    const verif_bytes* begin() const { return const_cast<verif_stack*>(this)->begin(); }
-    const verif_bytes* end() const { return w + n; }
-    verif_bytes* erase(verif_bytes* p) {
-        VERIF_LIMIT(__CPROVER_same_object(p, w), "stack access below the modelled window");
-        size_t pos = p - w;
+    // iterators address the window only: end() is window index n; end()-k with k > n is outside the window
+    verif_stack_iter end() const { verif_stack_iter r; r.idx = n; return r; }
+    verif_stack_iter begin() const { VERIF_LIMIT(base == 0, "begin() of a stack with hidden items"); verif_stack_iter r; r.idx = 0; return r; }
+    verif_stack_iter erase(verif_stack_iter p) {
+        size_t pos = p.idx;
+        VERIF_LIMIT(pos <= VERIF_STACK_W, "stack access below the modelled window");
         __CPROVER_assert(pos < n, "std::vector precondition: erase position valid");
         for (size_t i = 0; i + 1 < VERIF_STACK_W; ++i) if (i >= pos && i + 1 < n) w[i] = w[i + 1];
         n = n - 1; return p;
     }
-    verif_bytes* erase(verif_bytes* b, verif_bytes* e) {
-        VERIF_LIMIT(__CPROVER_same_object(b, w) && __CPROVER_same_object(e, w), "stack access below the modelled window");
-        size_t pb = b - w; size_t pe = e - w;
+    verif_stack_iter erase(verif_stack_iter b, verif_stack_iter e) {
+        size_t pb = b.idx; size_t pe = e.idx;
+        VERIF_LIMIT(pb <= VERIF_STACK_W && pe <= VERIF_STACK_W, "stack access below the modelled window");
         __CPROVER_assert(pb <= pe && pe <= n, "std::vector precondition: erase range valid");
         size_t k = pe - pb;
-        for (size_t i = 0; i < VERIF_STACK_W; ++i) if (i >= pb && i + k < n) w[i] = w[i + k];
+        for (size_t i = 0; i < VERIF_STACK_W; ++i) if (i >= pb && i + k < n) w[i] = sel(i + k);
         n = n - k; return b;
     }
-    verif_bytes* insert(verif_bytes* p, const verif_bytes& v) {
-        VERIF_LIMIT(__CPROVER_same_object(p, w), "stack access below the modelled window");
-        size_t pos = p - w; verif_bytes tmp = v;
+    verif_stack_iter insert(verif_stack_iter p, const verif_bytes& v) {
+        size_t pos = p.idx; verif_bytes tmp = v;
+        VERIF_LIMIT(pos <= VERIF_STACK_W, "stack access below the modelled window");
         __CPROVER_assert(pos <= n, "std::vector precondition: insert position valid");
         VERIF_LIMIT(n < VERIF_STACK_W, "stack window capacity");
         for (size_t j = VERIF_STACK_W - 1; j > 0; --j) if (j > pos && j <= n) w[j] = w[j - 1];
-        w[pos] = tmp; n = n + 1; return p;
+        sel(pos) = tmp; n = n + 1; return p;
     }
 };
 
